@@ -89,7 +89,7 @@ def _res_reward(f, st, a, nxt):
         v = f(st, a, nxt)
     except Exception as e:
         return {'o': 'raise:' + type(e).__name__, 'v': 0, 'x': False, 't': ''}
-    t = type(v).__name__
+    t = 'float' if isinstance(v, float) else type(v).__name__
     try:
         fv = float(v)
         if not math.isfinite(fv):
@@ -104,7 +104,8 @@ def _res_term(f, st, a, nxt):
         v = f(st, a, nxt)
     except Exception as e:
         return {'o': 'raise:' + type(e).__name__, 'v': False, 't': ''}
-    return {'o': 'ok', 'v': bool(v), 't': type(v).__name__}
+    import numpy as np
+    return {'o': 'ok', 'v': bool(v), 't': 'bool' if isinstance(v, (bool, np.bool_)) else type(v).__name__}
 
 
 _cache = {}
